@@ -33,7 +33,7 @@ func strategyCmd(id string, capRuns int64) int {
 	strategies := []struct {
 		name string
 		code int
-	}{{"swarm-mix", -1}, {"random-walk", 0}, {"sticky-random", 2}, {"partial-order-sampling", 4}, {"pct", 6}}
+	}{{"swarm-mix", -1}, {"random-walk", 0}, {"sticky-random", 3}, {"partial-order-sampling", 6}, {"pct", 8}}
 	const chunks = 3
 	out := make([]cell, len(strategies))
 	var wg sync.WaitGroup
